@@ -41,7 +41,7 @@ class Dims:
         k = e.k
         if k in ('IntegerLiteral', 'FloatingLiteral') or (e.cv is not None and k != 'DeclRefExpr') or (e.fv is not None and k != 'DeclRefExpr'):
             v = e.cv if e.cv is not None else e.fv
-            return ANY if v == 0 else Fraction(0)
+            return ANY if (v == 0 or abs(v) >= 1e300) else Fraction(0)   # 0 and +-DBL_MAX sentinels fit any dimension
         if k == 'DeclRefExpr':
             return self.var(e)
         if k == 'MemberExpr':
@@ -171,6 +171,8 @@ class Dims:
             elif is_assign(s) or s.k == 'CompoundAssignOperator':
                 l = _strip_casts(s.child('lhs'))
                 r = s.child('rhs')
+                if l is None or r is None or ('*' in (l.t or '') and not (l.t or '').rstrip().endswith(')')):
+                    continue   # pointer arithmetic
                 dl, dr = self.dim(l), self.dim(r)
                 op = s.op
                 key = lvalue_key(l) if l.k == 'DeclRefExpr' else None
